@@ -2,7 +2,7 @@
 CHECKS = {}
 CHECKS['C03'] = dict(
     technique='static analysis: grammar-docstring extraction, NoIn/NoBF family image lint, sibling-action cross-check by abstract interpretation of the parser actions, LALR conflict audit (ply as a library on extracted tuples), definition/production skeleton alignment, bounded enumeration of the array/elision sub-grammar with the actions evaluated from source against the dictated items, Earley cross-membership against an embedded ES5.1 grammar (pair coverage; thorough: depth 2), automata inclusion of the NUMBER/STRING/REGEX token languages against ES5 7.8.3-7.8.5, plus every rule of C04 (semicolon insertion) and C05 (reading of `/`)',
-    text='Decides the CFG layer (every production/action pair, exhaustive over the finite tables), the literal token languages (exact, automata), and the ASI / division-regex clauses through the rules of C04/C05. Not a proof of language equality with ECMA-262: the Earley cross-check is bounded, identifier/punctuator segmentation is C06.',
+    text='Decides the CFG layer (every production/action pair, exhaustive over the finite tables; node constructors must store their arguments unchanged, R03.9; a raising path of an action must reach a FuncExpr through leftmost printed children only, R03.10), the literal token languages (exact, automata), and the ASI / division-regex clauses through the rules of C04/C05. Not a proof of language equality with ECMA-262: the Earley cross-check is bounded, identifier/punctuator segmentation is C06.',
     ref='DESIGN.md sections 3 (C03), 9, 13.1',
     note='Trusted: CPython ast and re._parser, transcription of ply.yacc.parse_grammar, ply LALR construction used as a library on extracted (lhs, rhs) tuples, embedded ES5.1 reference grammar and lexical reference patterns. Analyses /repo/src text only.')
 
@@ -27,7 +27,7 @@ CHECKS['C11'] = dict(
     note='Trusted: CPython ast, the action interpreter and skeleton alignment of /verif/engine; ply yacc tracking semantics (p.lexpos(n) of a nonterminal is its first token) assumed.')
 CHECKS['C08'] = dict(
     technique='static analysis: token-map model of Node.setpos per production x definition emission alignment (which map entry each Text/Operator/;{} emission looks up), abstract evaluation of getpos and of the token/layout handlers',
-    text='Decides for all ~350 explicit-position emissions of the definitions that the looked-up map entry is the aligned slot; handlers are decided by exhaustive decision tables. Does not decide the source-file stack nor elision comma runs.',
+    text='Decides for all ~350 explicit-position emissions of the definitions that the looked-up map entry is the aligned slot; handlers and getpos (incl. leaf nodes printed with a text other than their value) are decided by decision tables; the source-file label of every token by evaluating walker.walk on trees with nested source paths (R08.5). Elision comma runs are not decided.',
     ref='DESIGN.md section 3 C08',
     note='Trusted: action interpreter, skeleton alignment, abstract evaluator; walker.walk semantics (digest-guarded by C01/C02).')
 
@@ -43,34 +43,34 @@ CHECKS['C14'] = dict(
     note='Trusted: CPython ast; conservative alias classification (any parameter may alias the tree).')
 CHECKS['C15'] = dict(
     technique='static analysis: effect analysis of the parse path (no global / class-level / default-argument writes), per-call construction of Parser/Lexer/ply objects, initialisation of every instance attribute read',
-    text='Decides the absence of shared mutable state in the repository code on the parse path (379 write sites, 228 attribute reads). ply internals are assumed.',
+    text='Decides the absence of shared mutable state in the repository code on the parse path (about 380 write sites incl. writes through captured variables of escaping closures and inherited class-level mutables, 228 attribute reads). ply internals are assumed.',
     ref='DESIGN.md section 3 C15',
     note='Trusted: CPython ast; ply builds its objects per yacc()/lex() call and shares table modules read-only.')
 CHECKS['C18'] = dict(
-    technique='static analysis by partial evaluation: io.read and io.write are evaluated from their syntax trees with stand-in streams, parser, printer and source-map writer for every arrangement of factories / open streams and every step that can fail (fault-injection decision tables: 9 + 37 cells); utils.normrelpath, sourcemap.verify_write_sourcemap_args and the inline branch of write_sourcemap are folded on tables of path pairs and charsets',
-    text='Decides the closing discipline exhaustively over the modelled arrangements and fault points (each stand-in step fails or not), propagation of failures, the re-labelling of syntax errors, that the printer output and the streams reach the source-map writer unchanged, and - on a finite table, not exhaustively - that the computed relative references designate the right files and that the inline data URL decodes to the map. Equality of the written text with the printer output is not decided.',
+    technique='static analysis by partial evaluation: io.read and io.write are evaluated from their syntax trees with stand-in streams, parser, printer and source-map writer for every arrangement of factories / open streams and every step that can fail (fault-injection decision tables: 14 + 65 cells, each step failing with an Exception or with an interrupt); utils.normrelpath, sourcemap.verify_write_sourcemap_args and the inline branch of write_sourcemap are folded on tables of path pairs and charsets',
+    text='Decides the closing discipline exhaustively over the modelled arrangements and fault points (each stand-in step fails or not), propagation of failures, the re-labelling of syntax errors, that the printer output and the streams reach the source-map writer unchanged, and - on a finite table, not exhaustively - that the computed relative references designate the right files and that the inline data URL decodes (strict standard base64) to the map. Every failing step also fails with an exception that is not an Exception (interrupt). Equality of the written text with the printer output is not decided.',
     ref='DESIGN.md sections 3 (C18), 9.2, 13.1',
     note='Trusted: CPython ast, the evaluator, posixpath as the meaning of os.path. exhaustive over fault points of the stand-ins; sampled over path strings.')
 
 CHECKS['C12'] = dict(
     technique='static analysis: raise-site classification, contradictory-null-belief analysis with guard dominance (Engler) using per-method write summaries and one callee summary obtained by evaluation, checked never-empty-list invariants for stack/index attributes, partial-operation lint, and decision tables: Parser._raise_syntax_error over the presence of its three tokens and broken_string_token_handler over all remaining-input strings up to length 3 (thorough 4) of an 11-character lexical alphabet, evaluated from source',
-    text='Decides the exception-type clause: every raise site, every dereference of a believed-nullable value, every subscript / dict lookup on the lex/parse error paths, and totality of the two error-message builders on the enumerated inputs. Termination and the position quoted in messages are not decided.',
+    text='Decides the exception-type clause: every raise site, every dereference of a believed-nullable value, every subscript / dict lookup on the lex/parse error paths, and totality of the error-message builders on the enumerated inputs; and the message clause on a table (R12.7): the builders, evaluated with the real format_lex_token on laid-out token scenarios (long values, % and {} in token texts, second line), quote only text that occurs at the quoted line:column. Termination is not decided.',
     ref='DESIGN.md sections 3 (C12), 13.3',
     note='Trusted: CPython ast, the evaluator, two triage entries with a one-line reason each (checks/c12.py), ply calls t_error with a non-empty remainder.')
 CHECKS['C13'] = dict(
     technique='static analysis: def-use of the capture flags and of the hidden-token buffer, abstract evaluation of Node.set_comments and Lexer.token, per-action uniqueness of setpos token slots, structural rule over the comment definitions vs the restricted productions',
-    text='Decides non-interference of the flag, verbatim/ordered/positioned attachment, single attachment, and the restricted-production clause of the printing half. Re-attachment after re-layout is not decided.',
+    text='Decides non-interference of the flag on the token stream and on the semicolon insertion decisions (Lexer.token and auto_semi evaluated under the four flag combinations), verbatim/ordered/positioned attachment incl. comments ending in blanks, single attachment, the restricted-production clause of the printing half, that a printed line comment is always followed by a line break (R13.7) and that the comment deferrables print what the handler returns. Re-attachment after re-layout is not decided.',
     ref='DESIGN.md section 3 C13',
     note='Trusted: CPython ast, abstract evaluator, action interpreter, definitions model.')
 
 CHECKS['C20'] = dict(
     technique='static analysis of the definitions table and the indent rule table as data: Indent/Dedent balance on every path, lock-step with braces, position of line breaks in layout sequences, decision tables of the Indentator handlers by evaluation; ruletypes Token classes and walker.walk/Dispatcher are evaluated from source on abstract scenarios and must agree with the flattening the rules assume (else ANALYSIS-ERROR: stale model)',
-    text='Exhaustive over all 56 definitions and their Optional/Join paths and over the handler decision tables for three indentation strings.',
+    text='Exhaustive over all 56 definitions and their Optional/Join paths and over the handler decision tables for three indentation strings; process_layouts itself is evaluated on the long mark runs nesting produces (R20.6, runs up to 120 marks): the depth after a run is the depth before plus its Indent/Dedent balance. Thresholds beyond that run length are not seen.',
     ref='DESIGN.md sections 3 (C20), 9.1',
     note='Trusted: the evaluator; the flattening model is compared with the evaluated walker on 2220 scenarios on every run (no digests).')
 CHECKS['C07'] = dict(
     technique='static analysis: scope-marker balance over definition paths, rule-table shape, def-use of the reserved-word skip set through default arguments, decision tables of Scope/CatchScope bookkeeping by abstract evaluation on abstract scope trees',
-    text='Decides necessary conditions only (marker balance, spelling-only change, reserved-word skip set, composition of the per-scope reserved set). Capture freedom over arbitrary scope trees is NOT decided.',
+    text='Decides necessary conditions only (marker balance, spelling-only change, reserved-word skip set incl. its stability over successive print calls of one printer, pass-through of the resolved name by the Resolve deferrable, composition of the per-scope reserved set, no state surviving a print call). Capture freedom over arbitrary scope trees is NOT decided.',
     ref='DESIGN.md section 3 C07',
     note='Narrow claim. Trusted: definitions model, abstract evaluator, ES5 reserved word list.')
 CHECKS['C10'] = dict(
@@ -103,7 +103,7 @@ CHECKS['C19'] = dict(
 
 CHECKS['C09'] = dict(
     technique='static analysis by partial evaluation: sourcemap.write with its bookkeeping classes (Names, Bookkeeper with its attribute hooks, Book) and normalize_mappings are evaluated from their syntax trees on every stream of up to 3 (thorough 4) abstract fragments over 17 fragment shapes x {normalisation off, on}; the relative mappings are decoded by an independent 40-line Source Map V3 decoder and compared clause by clause with what the fragments carried; encode_sourcemap is folded and decoded back',
-    text='Bounded: exhaustive over the abstract fragment streams up to the bound (14 478 quick, ~250 000 thorough), not beyond. Decides, on those, the mapping of every explicitly positioned fragment (source, line, column, original name; by linear interpolation when normalised), index ranges, monotone generated columns and one mapping line per text line. Streams longer than the bound and other concrete positions are NOT decided; the VLQ layer is C10.',
+    text='Bounded: exhaustive over the abstract fragment streams up to the bound (about 21 000 quick, ~250 000 thorough) and over every split of such a stream into two calls that share book, sources, names and mappings (R09.4), not beyond. Decides, on those, the mapping of every explicitly positioned fragment (source, line, column, original name; by linear interpolation when normalised), index ranges, monotone generated columns and one mapping line per text line. Streams longer than the bound and other concrete positions are NOT decided; the VLQ layer is C10.',
     ref='DESIGN.md sections 9.2, 13.4',
     note='Trusted: the evaluator (engine/absint.py), the embedded decoder. No repository code is imported or run; the functions are interpreted from their syntax trees.')
 
